@@ -6,7 +6,12 @@ Model: `QtVerif.Deps` (`Model/Deps.lean`): `checkLoops` mirrors `core/expression
 `assign`/`clear` mirror `BasePort.attr_set_expression`, `addPort`/`removePort`/`setEnabled`/`reload`/`restore` the other ways
 the dependency graph can change.  Specification (`Proofs/Deps.lean`):
 
-* `Reads h p q`  : `p`, `q` registered, `q ≠ p`, the expression installed on `p` contains `$q` (or is reached as `$`);
+* `Reads h p q`  : `p`, `q` registered, `q ≠ p`, the expression installed on `p` contains `$q` (or is reached as `$`).
+  "Reads the value of" is the *syntactic* relation: every `$id` occurrence in the expression tree
+  (`Expr.portValueIds`), at any depth, inside any function — whatever trigger-dependency set (`get_deps()`) a function
+  chooses to report. The walk of the model goes over the syntax tree, and so does the oracle of the harness (it walks
+  `.args` / `PortValue.port_id` of the real expression objects, and draws from every function of the live registry), so
+  a function whose dependency reporting differs from its arguments cannot hide a reference from the check unnoticed;
 * `TG (Reads h) p q` : a non-empty path `p → … → q`;  `Acyclic h := ∀ p, ¬ TG (Reads h) p p`;
 * `Reach h t q`  : `t` reachable from `q` along the edges the walk follows (self-edges included, zero or more steps).
 
@@ -43,6 +48,29 @@ theorem assign_preserves_acyclic (h : Hub) (id : String) (parsed : Option Expr) 
 restores (`PUT /ports`), starting from the empty hub, the reads relation between distinct registered ports is acyclic. -/
 theorem reachable_acyclic (ops : List Op) : Acyclic (run Hub.empty ops) :=
   run_acyclic ops Hub.empty empty_acyclic
+
+/-- The same for hubs whose ports may go away while their persisted record is kept (`remove(persisted_data=False)`:
+hub stop, peripheral removed) and come back later (`core.ports.load`, `POST /ports` under the same id, restart): the
+other ports may meanwhile have been given expressions that refer to the absent id, so a record can hold the second half
+of a cycle; it goes through the checked assignment again when it is loaded, and every reachable hub is acyclic. -/
+theorem reachable_acyclic_absent (ops : List SOp) : Acyclic (srun {} ops).hub :=
+  srun_acyclic ops {} empty_acyclic
+
+/-- Why the record must be re-checked: installing a persisted expression unchecked (register, then store) closes a
+cycle in a history that the checked path handles by dropping the record's expression. -/
+theorem unchecked_load_closes_cycle :
+    ∃ (s : Sys) (r : PortEntry) (e : Expr), Acyclic s.hub ∧ s.record r.id = some r ∧ r.expr = some e ∧
+      s.hub.get r.id = none ∧ ¬ Acyclic ((register s.hub r.id r.enabled).setExpr r.id (some e)) ∧
+      (loadRecord s.hub r r.enabled).exprOf r.id = none := by
+  refine ⟨srun {} [.hub (.addPort "a"), .hub (.addPort "c"),
+      .hub (.assign "c" (some (.call "ADD" [.portVal "a", .lit "1"]))), .unload "c",
+      .hub (.assign "a" (some (.call "MUL" [.portVal "c", .lit "2"])))],
+    ⟨"c", true, some (.call "ADD" [.portVal "a", .lit "1"])⟩, .call "ADD" [.portVal "a", .lit "1"],
+    reachable_acyclic_absent _, by rfl, rfl, by decide, ?_, by decide⟩
+  intro hac
+  refine hac "a" (TG.cons (b := "c") ?_ (TG.single ?_))
+  · exact ⟨by decide, by decide, by decide, by decide⟩
+  · exact ⟨by decide, by decide, by decide, by decide⟩
 
 /-- A restart re-checks every persisted expression, so the reloaded hub is acyclic whatever had been persisted. -/
 theorem reload_heals (h : Hub) : Acyclic (reload h) :=
@@ -234,5 +262,15 @@ example : Shuffle [[.suspend, .atomic (.assign "a" (some (.portVal "b")))], [.at
     [.suspend, .atomic (.assign "b" (some (.portVal "a"))), .atomic (.assign "a" (some (.portVal "b")))] :=
   .take (pre := []) .suspend (.take (pre := [[.atomic (.assign "a" (some (.portVal "b")))]]) (post := []) _
     (.take (pre := []) _ (.drop (.drop .nil))))
+
+-- c := ADD($a,1); c goes away, record kept; a := MUL($c,2) is accepted (c is not registered); c is loaded again:
+-- its persisted expression is refused, c comes back without expression, a keeps its own
+example : ((srun {} [.hub (.addPort "a"), .hub (.addPort "c"), .hub (.assign "c" (some (.call "ADD" [.portVal "a", .lit "1"]))),
+      .unload "c", .hub (.assign "a" (some (.call "MUL" [.portVal "c", .lit "2"]))), .load "c"]).hub.ports.map
+      fun p => (p.id, p.enabled, p.expr.map Expr.print)) = [("a", true, some "MUL($c, 2)"), ("c", true, none)] := by decide
+-- a full restart after the same edits: registered ports are loaded first, the absent one last and loses its expression
+example : ((srun {} [.hub (.addPort "a"), .hub (.addPort "c"), .hub (.assign "c" (some (.call "ADD" [.portVal "a", .lit "1"]))),
+      .unload "c", .hub (.assign "a" (some (.call "MUL" [.portVal "c", .lit "2"]))), .hub .reload]).hub.ports.map
+      fun p => (p.id, p.enabled, p.expr.map Expr.print)) = [("a", true, some "MUL($c, 2)"), ("c", true, none)] := by decide
 
 end QtVerif.C04
